@@ -1209,6 +1209,10 @@ class Exec:
                 return self.alloc(HList(o.elem, z3.Extract(o.seq, l, cnt)))
             if isinstance(o, HTuple) and lo is None and hi is None:
                 return self.alloc(HTuple(o.items, o.is_tuple))
+            if isinstance(o, HObjList) and lo is None and hi is None:
+                # a full copy `xs[:]` of an object list holds the same objects: modelled by the list itself, frozen in length from here on
+                o.copied = True
+                return base
         if isinstance(base, SV) and base.kind in ("str", "val"):
             if base.kind == "val":
                 self.maybe_raise(z3.Not(ops.tag_is(base, "str")), "TypeError", "slice of non-str")
@@ -1422,6 +1426,9 @@ class Exec:
                 fo = z3.Function("py_float_of", z3.StringSort(), z3.RealSort())
                 self.maybe_raise(z3.Not(ok(v.term)), "ValueError", "float(str)")
                 return SV("real", fo(v.term))
+            if v.kind == "val" and v.tags is not None and set(v.tags) <= {"int", "bool", "real"}:
+                t = v.term
+                return SV("real", z3.If(Val.is_RealV(t), Val.rv(t), z3.ToReal(ops.as_int(v))))
             raise OutsideSubset("float() of a dynamically typed value")
         if name == "bool":
             return B(self.truth(args[0]))
@@ -1546,6 +1553,8 @@ class Exec:
         if isinstance(recv, SV):
             return self.str_method(recv, name, args, kw)
         o = self.heap[recv.oid]
+        if isinstance(o, HObjList) and getattr(o, "copied", False) and name in ("append", "pop", "remove", "insert", "extend", "clear"):
+            raise OutsideSubset("structural change of an object list after a full-slice copy of it was taken")
         if isinstance(o, HObjList) and name == "append" and o.clsname.startswith("$"):
             typ, arr = o.fields["v"]
             v = self.as_scalar(args[0])
